@@ -47,6 +47,7 @@ def run(ch, config, res):
     world = World(ch, cfg, client_impl=config.get("client", "real"), read_size=rsz)
     srv = world.server
     srv.order_variation = True
+    srv.cap_variation = True        # in particular: the server calls itself one of many things
     srv.text_lit_variation = True
     with ch.scope("run"):
         refusal_first = wl.flag("refusal_first", 1, 2)
